@@ -60,16 +60,19 @@ def run(chk, F, tier):
                        detail={"fn": b["path"], "callee": callee, "kinds": sorted(ent["kinds"]), "details": ent.get("details")},
                        sample={"fn": b["path"][-60:], "callee": callee.split("::")[-1], "kinds": sorted(ent["kinds"])} if nsites % 40 == 1 else None)
     # ---- E3: no store to *self before the `?` of the word fetch on a path that returns the error
-    chk.rule("E3.order", floor=6, doc="refill / peek_bits: on a path where the word fetch fails nothing of the reader has been modified before the failure")
+    chk.rule("E3.order", floor=4, doc="refill / peek_bits: on a path where the word fetch fails nothing of the reader has been modified before the failure")
     targets = []
     for b in F.bodies:
         if b["kind"] != "AssocFn":
             continue
         nm = b["path"].split("::")[-1]
         sf = b.get("impl_self") or ""
-        if sf.startswith("impls::buf_bit_reader::BufBitReader<") and nm in ("refill", "peek_bits"):
+        is_reader = sf.startswith("impls::buf_bit_reader::BufBitReader<") or sf.startswith("impls::bit_reader::BitReader<")
+        if is_reader and nm == "peek_bits" and (b.get("impl_trait_def") or "").startswith("traits::bits::BitRead"):
             targets.append(b)
-        if sf.startswith("impls::bit_reader::BitReader<") and nm == "peek_bits":
+        elif is_reader and not b.get("impl_trait") and str(b.get("vis") or "").startswith("Restricted") and \
+                any(bl["term"].get("k") == "call" and (bl["term"]["func"].get("fn") or "").endswith("WordRead::read_word") for bl in b["blocks"]):
+            # a private word-fetching helper of a reader (the look-ahead refill), whatever it is called
             targets.append(b)
     SELF = ("deref", ("arg", 1, "self"))
     for b in targets:
@@ -123,6 +126,7 @@ def run(chk, F, tier):
                 return out
             wk = numabs.NumWalker(b, numabs.Cfg(w), F, C, assume)
             wk.inline = spec.inline
+            wk.gen_map = dict(getattr(spec, "gen", None) or {})
             bad = None
             nf = 0
             for p in wk.run():
